@@ -79,3 +79,29 @@ class DrvProp(diffcheck.DiffProp):
         if len(out) < 2 or len(out) < 2 + 3 * out[0]:
             return "malformed harness output"
         return None
+
+
+def fifo_violation(case, out):
+    """polling driver: the driver's own per-descriptor queue decides who gets the next bytes, so among the
+    receives that WAITED IN THE QUEUE of one descriptor of a stream socket the stream offsets must follow the
+    queueing order (a cancelled or dropped waiter leaves, the others keep their order).  An operation that
+    completed at push time never waited and may overtake the waiters."""
+    if case[0] != 1:
+        return None
+    evs, slots = parse(out)
+    queued = {}
+    for idx, (k, key, arg) in enumerate(evs):
+        if k == K["P_QUEUE"] and key not in queued:
+            queued[key] = (idx, arg)
+    by_fd = {}
+    for i, s in enumerate(slots):
+        if s["kind"] == 1 and s["status"] == 1 and s["value"] > 0 and s["contig"] and s["key"] in queued:
+            idx, fd = queued[s["key"]]
+            by_fd.setdefault((fd, s["res"]), []).append((idx, i, s["first"]))
+    for _, l in by_fd.items():
+        l.sort()
+        for (_, i, fi), (_, j, fj) in zip(l, l[1:]):
+            if fj < fi:
+                return ("polling driver: recv slot %d (queued after slot %d on the same descriptor) received earlier "
+                        "bytes of the stream (offset %d before %d): the waiters' order was changed" % (j, i, fj, fi))
+    return None
